@@ -37,6 +37,28 @@ type chanOp struct {
 // chanClass names the identity class of a channel value.
 func chanClass(p *Prog, v ssa.Value) string {
 	v0 := v
+	// a channel variable captured by reference through nested closures: follow the bindings to the cell
+	if ld, ok := v.(*ssa.UnOp); ok && ld.Op == token.MUL {
+		if fv, okf := ld.X.(*ssa.FreeVar); okf {
+			var cell ssa.Value = fv
+			for i := 0; i < 6; i++ {
+				f2, isFV := cell.(*ssa.FreeVar)
+				if !isFV {
+					break
+				}
+				b := freeVarBinding(f2)
+				if b == nil {
+					break
+				}
+				cell = b
+			}
+			if al, isAl := cell.(*ssa.Alloc); isAl {
+				if sv := singleStore(al); sv != nil {
+					return chanClass(p, sv)
+				}
+			}
+		}
+	}
 	v = strip(v)
 	if base, f, ok := fieldLoad(v); ok {
 		return fieldKey(base, f)
